@@ -165,10 +165,12 @@ static thread_local long g_cur_acc = -1;
 struct ScriptAcc
 {
   long id;
+  mutable long calls = 0;     // an accumulator with state of its own: each emission must get a fresh one
   ScriptAcc() : id(g_cur_acc) {}
   template <class It>
   int operator()(It first, It last) const
   {
+    if (++calls != 1) ev("ACC-REUSED");
     const std::vector<AccOp>* ops = nullptr;
     auto f = g_prog->accs.find(id);
     static const std::vector<AccOp> none;
@@ -213,10 +215,12 @@ struct ScriptAcc
 struct ScriptAccV
 {
   long id;
+  mutable long calls = 0;
   ScriptAccV() : id(g_cur_acc) {}
   template <class It>
   void operator()(It first, It last) const
   {
+    if (++calls != 1) ev("ACC-REUSED");
     static const std::vector<AccOp> none;
     auto f = g_prog->accs.find(id);
     const std::vector<AccOp>* ops = (f == g_prog->accs.end()) ? &none : &f->second;
